@@ -143,7 +143,14 @@ def pool_scenarios(tier):
     nodes2 = [(1, [1, 2]), (1, []), (3, []), (4, [3]), (2, [4])]
     sets2 = [cset("v2", [1, 2]), cset("v2", [1, 2, 4]), cset("v1", [3]), cset("v2", [4], basis=2), cset("v2", [2, 4], basis=1)]
     b = scenario("pool-confirm-both", [1, 2, 3], nodes2, T2, sets=sets2)
-    return [a, b]
+    if tier == "quick":
+        return [a, b]
+    # every abstract transaction in the other version as well (v1 parent/child/conflict, v2 singles)
+    flip = {"v1": "v2", "v2": "v1"}
+    Tf = [tx(flip[t["kind"]], t["ins"], t["outs"]) for t in T]
+    setsf = [cset(flip[c["kind"]], c["txs"], basis=c["basis"]) for c in sets]
+    c = scenario("pool-fork-flipped", [1, 2, 3], nodes[:5], Tf, sets=setsf)
+    return [a, b, c]
 
 
 def full_scenarios(tier):
